@@ -215,6 +215,46 @@ def step_change_failures(prop, ops, fired):
     return out
 
 
+def ownership_failures(prop, ops, fired):
+    """C06, "never in the result of another test running at the same time", on the fired stream of ANY call sequence:
+    an event that names a thread and a location (step start / end, log, check, url, attachment) is fired by a thread that
+    was given a cursor on that location — the thread that ran the matching start_* call, or an lcc.Thread created
+    (transitively) by such a thread.  A thread that never got a cursor (a plain threading.Thread, a pool worker of a
+    library) has no location: whatever it emits must not land in the result some OTHER thread is working on.
+    Deliberately generous (locations are collected over the whole sequence, a created thread inherits every location
+    its creator ever had): what it flags is certainly foreign."""
+    kinds = {"startTest": "test", "startSuiteSetup": "setup", "startSuiteTeardown": "teardown",
+             "startSessionSetup": "ssetup", "startSessionTeardown": "steardown"}
+    key = lambda k, path: (k, tuple(path) if path is not None and k not in ("ssetup", "steardown") else None)
+    owned = {}
+    for op in ops:
+        if op["op"] in kinds:
+            owned.setdefault(op["tid"], set()).add(key(kinds[op["op"]], op.get("path")))
+    for _ in range(2 + sum(1 for op in ops if op["op"] == "threadCreate")):
+        changed = False
+        for op in ops:
+            if op["op"] == "threadCreate":
+                have = owned.setdefault(op["new"], set())
+                more = owned.get(op["tid"], set()) - have
+                if more:
+                    have |= more
+                    changed = True
+        if not changed:
+            break
+    out = []
+    for i, e in enumerate(fired):
+        if "tid" not in e or not isinstance(e.get("loc"), dict) or e["tid"] is None:
+            continue
+        k = key(e["loc"]["k"], e["loc"].get("path"))
+        if k not in owned.get(e["tid"], set()):
+            out.append(C.Failure(prop + "/payload-in-foreign-result",
+                                 "fired[%d] = %s comes from thread %s, which was never given a cursor on that location (its locations: %s): "
+                                 "what that thread emits is recorded in the result of a test it does not belong to"
+                                 % (i, {k2: v for k2, v in e.items() if k2 != "md"}, e["tid"], sorted(map(str, owned.get(e["tid"], set()))))))
+            break
+    return out
+
+
 def _att_content(path):
     """what the harness writes into the attachment file it is handed: determined by the (unique) file name"""
     return "content of " + os.path.basename(path)
